@@ -9,7 +9,7 @@ from . import msdgap
 from . import simmodel as M
 
 # "\ufeff": a zero-width no-break space inside a key or value is content, only a leading one is a byte order mark
-ALPH = list("AB0_ :;\\/\n") + ["//", "\r", "\r\n", "#", "\n#", "é", "ミ", "a", "b", ",", "\ufeff"]
+ALPH = list("AB0_ :;\\/\n") + ["//", "\r", "\r\n", "#", "\n#", "é", "ミ", "a", "b", ",", "\ufeff", "\n \n", "\n\t \n"]
 KEY_ALPH = list("AB0_ :;\\/\n") + ["//", "\r", "#", "É", "ミ", "\ufeff"]
 KNOWN_KEYS = [
     "TITLE", "SUBTITLE", "ARTIST", "CREDIT", "MUSIC", "BANNER", "OFFSET", "BPMS", "STOPS", "FREEZES", "DELAYS",
@@ -313,7 +313,7 @@ def constructions(draw, fmt):
     """direct construction: an empty simfile filled with pairs and charts"""
     ps = draw(st.lists(pairs(fmt), max_size=6, unique_by=lambda kv: kv[0]))
     if draw(st.integers(0, 7)) == 0:
-        first = draw(st.sampled_from(["VERSION ", " VERSION", "VERSION\n", "\tVERSION", "VERSIONS", "XVERSION"] if fmt == "sm" else ["VERSION"]))
+        first = draw(st.sampled_from(["VERSION ", " VERSION", "VERSION\n", "\tVERSION", "VERSIONS", "XVERSION", "VERSION/2", "VERSION:", "VERSION;X", "VERSION\\", "VERSION//"] if fmt == "sm" else ["VERSION"]))
         ps = [[first, draw(st.sampled_from(["0.83", "", None]))]] + [p for p in ps if p[0] != first]
     cs = draw(st.lists(chart_specs(fmt), max_size=3))
     ops = [["set", k, v] for k, v in ps] + [["chart_add", c] for c in cs]
